@@ -378,6 +378,10 @@ func (ps *Pieces) del(p uint32, force bool) (done bool, complete bool) {
 			}
 		}
 		ps.mu.Lock()
+		if ps.pieces[p].data == nil {
+			// deleted while we were waiting
+			return
+		}
 	}
 
 	done = true
